@@ -39,4 +39,17 @@ theorem rd_sweep_false (Nz Nr : Nat) (node : (Nat → Nat → α) → Nat → Na
   simp [sweep, rd, Array.getD, h, idx_div hj, idx_mod hj]
 
 end generic
+
+/-- the default configuration: 10 mm × 10 mm vial, 5 % sucrose, `K_shelf = 50`, jacket with a
+1 mm air gap (constants as `calculateDerived` produces them) -/
+noncomputable def pDef : Par ℝ :=
+  { Nz := 30, Nr := 15, pi := 3.141592653589793, height := 0.01, diameter := 0.01, V := 0.000001,
+    rho_l := 1000, mass := 0.001, mass_water := 0.001 * (1 - 0.05), mass_solute := 0.001 * 0.05,
+    lambda_w := 0.598, lambda_i := 2.25, lambda_s := 0.126, cp_w := 4187, cp_i := 2108, cp_s := 1240,
+    cp_solution := 0.05 * 1240 + (1 - 0.05) * 4187, solid_fraction := 0.05, T_eq := 0, k_f := 1.853,
+    M_s := 0.3423, depression := 1.853 / 0.3423 * (0.05 / (1 - 0.05)), kb := 1e-29, b := 29.3,
+    k_B := 1.38e-23, Dh := 333550, K_shelf := 50, config := Config.jacket,
+    p_vac := 100, kappa := 0.01, dHe := 2500900, m_water := 2.99e-26, t_vac_start := 0.75,
+    t_vac_duration := 0.1, air_gap := 0.001, lambda_air := 0.025 }
+
 end Snow.S2D
